@@ -267,6 +267,11 @@ def run_case(case, res):
         if fresh is not None and fresh["error"] is None:
             res.violation("repro", "valid-run-fails-after-an-earlier-run-in-the-same-process",
                           {"error_in_process": repr(out1.error), "fresh_process": "ran normally", "tb": (out1.tb or "")[-600:]})
+        elif fresh is not None and type(out1.error).__name__ in str(fresh["error"]):
+            # the generated market ran into a state in which a built-in agent gives up (e.g. FCNAgent's own
+            # finiteness assertion after the price collapsed): the run stops the same way in a fresh process,
+            # which is all C07 can say about it; counted, and too many of them make the whole check inconclusive
+            res.count("configuration_stops_the_same_way_in_a_fresh_process(not judged further)")
         else:
             res.inconc("kitchen-sink configuration aborted: %r %s" % (out1.error, (out1.tb or "")[-500:]))
         return
@@ -352,3 +357,10 @@ def run_case(case, res):
 
             shutil.rmtree(d, ignore_errors=True)
     res.seen(canon_hash([case["seed"], sample_of(case)]), nontrivial)
+
+
+def finalize(res, tier, seed, env):
+    stopped = res.counters.get("configuration_stops_the_same_way_in_a_fresh_process(not judged further)", 0)
+    if stopped * 20 > max(1, res.evaluations):
+        res.inconc("%d of %d generated configurations stopped by themselves (more than 5%%)" % (stopped, res.evaluations))
+    return {}
